@@ -429,7 +429,24 @@ func (g *XSyn) cmdArgs(d int) string {
 		}
 		parts[i] = x
 	}
-	return strings.Join(parts, ", ")
+	out := strings.Join(parts, ", ")
+	// a spread last argument (`echo xs...`); decided from the text so that the random stream stays as it is
+	if last := parts[n-1]; isPlainIdent(last) && (len(out)+n)%3 == 0 {
+		out += "..."
+	}
+	return out
+}
+
+func isPlainIdent(s string) bool {
+	if s == "" || s == "_" || s == "nil" || s == "true" {
+		return false
+	}
+	for i, c := range s {
+		if !(c == '_' || c >= 'a' && c <= 'z' || c >= 'A' && c <= 'Z' || i > 0 && c >= '0' && c <= '9') {
+			return false
+		}
+	}
+	return true
 }
 
 func (g *XSyn) lhs(d int) string {
